@@ -7,6 +7,7 @@ require ariga.io/atlas v0.0.0
 require golang.org/x/mod v0.17.0 // indirect
 
 require (
+	github.com/DATA-DOG/go-sqlmock v1.5.0
 	github.com/agext/levenshtein v1.2.1 // indirect
 	github.com/apparentlymart/go-textseg/v13 v13.0.0 // indirect
 	github.com/apparentlymart/go-textseg/v15 v15.0.0 // indirect
